@@ -11,6 +11,7 @@ Fixpoint pure (e : expr) : bool :=
   | EBool _ | EInt _ | EStr _ | EVar _ => true
   | EGroup x | EUnary x | EItoa x => pure x
   | EBinary l _ r | ECompare l _ r | ELogical l _ r => pure l && pure r
+  | ELen x => pure x && is_string (type_of x)          (* len of a string *)
   | _ => false
   end.
 
@@ -45,6 +46,11 @@ Fixpoint peval (sg : senv) (e : expr) : option value :=
       | _, _ => None
       end
   | EItoa x => match peval sg x with Some (VInt z) => Some (VStr (dec_Z z)) | _ => None end
+  | ELen x =>
+      match peval sg x with
+      | Some (VStr t) => if (Z.of_nat (length t) <=? int64_max)%Z then Some (VInt (Z.of_nat (length t))) else None
+      | _ => None
+      end
   | _ => None
   end.
 
@@ -60,7 +66,7 @@ Definition env_ok (sg : senv) : Prop :=
 Fixpoint lits_ok (e : expr) : Prop :=
   match e with
   | EInt z => (int64_min <= z <= int64_max)%Z
-  | EGroup x | EUnary x | EItoa x => lits_ok x
+  | EGroup x | EUnary x | EItoa x | ELen x => lits_ok x
   | EBinary l _ r | ECompare l _ r | ELogical l _ r => lits_ok l /\ lits_ok r
   | _ => True
   end.
@@ -68,7 +74,7 @@ Fixpoint lits_ok (e : expr) : Prop :=
 Fixpoint vars_of (e : expr) : list var :=
   match e with
   | EVar x => [x]
-  | EGroup x | EUnary x | EItoa x => vars_of x
+  | EGroup x | EUnary x | EItoa x | ELen x => vars_of x
   | EBinary l _ r | ECompare l _ r | ELogical l _ r => vars_of l ++ vars_of r
   | _ => []
   end.
@@ -223,6 +229,8 @@ Proof.
     inversion H; subst. simpl. auto.
   - destruct (Henv _ _ H) as (A & B & C). cbn [type_of]. auto.
   - apply IHe; assumption.
+  - destruct (peval sg x) as [[| |t|]|]; try discriminate. destruct (Z.of_nat (length t) <=? int64_max)%Z eqn:El; [|discriminate].
+    inversion H; subst. apply Z.leb_le in El. simpl. split; [reflexivity|]. split; [reflexivity|]. unfold int64_min. lia.
   - destruct (peval sg x) as [[z| | |]|]; try discriminate. inversion H; subst. simpl. auto.
 Qed.
 
@@ -362,6 +370,27 @@ Proof.
     + intros n _. reflexivity.
     + left. exists v0. split; [left; reflexivity|reflexivity].
   - (* group *) apply (IHe Hp sg used s vs s' b v Ht Hv Henv Hl Hrep Hhy).
+  - (* len of a string *)
+    apply andb_true_iff in Hp as [Hp Hstr]. mb Ht as vx s1 H1 H2. rewrite Hstr in H2. mb H2 as a s2 H2 H3. mr H3. ml H2.
+    unfold bash_conv in H2. cbn [cv_string_len] in H2.
+    destruct (peval sg x) as [[| |t|]|] eqn:Ex; try discriminate. destruct (Z.of_nat (length t) <=? int64_max)%Z eqn:El; [|discriminate]. inversion Hv; subst v.
+    destruct (IHe Hp sg true s vx s1 b (VStr t) H1 Ex Henv Hl Hrep Hhy) as [l1 a1 b1 O1 E1 M1 R1 V1 F1 S1]. subst vx. cbn [first_value] in H2.
+    unfold next_helper in H2. cbn zeta in H2. inversion H2; subst a s'; clear H2.
+    set (n := helper_name s (b_var_counter s1)).
+    assert (var_name {| b_start := b_start s1; b_code := b_code s1; b_var_counter := S (b_var_counter s1); b_for_counter := b_for_counter s1;
+                        b_fors := b_fors s1; b_funcs := b_funcs s1; b_func_counter := b_func_counter s1; b_sah := b_sah s1; b_sch := b_sch s1; b_ssh := b_ssh s1 |}
+                     (95 :: 104 :: dec_nat (b_var_counter s1)) false = n) as Hn
+      by (unfold n; rewrite <- (helper_name_ext _ _ _ (b_var_counter s1) E1); reflexivity).
+    rewrite Hn.
+    refine (mkOut sg s _ b _ _ [ARef n] (l1 ++ [LAssign n (RAtom a1); LAssign n (RStrLen n)]) (ARef n)
+              (sh_set n (dec_Z (Z.of_nat (length t))) (sh_set n (atom_text b1 a1) b1)) eq_refl _ _ _ _ _ _).
+    + eapply ext_trans; [exact E1|]. constructor; try reflexivity. cbn [add_line b_code]. rewrite <- app_assoc. reflexivity.
+    + cbn [add_line b_var_counter]. lia.
+    + rewrite exec_lines_app, R1. cbn [exec_lines exec_line eval_rhs]. rewrite sh_get_set_same, V1, text_str. reflexivity.
+    + cbn [atom_text]. rewrite sh_get_set_same. reflexivity.
+    + intros m Hm. rewrite !sh_get_set_other; [apply F1; intros k Hk; apply Hm; cbn [add_line b_var_counter]; lia| |];
+        apply Hm; cbn [add_line b_var_counter]; lia.
+    + right. exists (b_var_counter s1). split; [cbn [add_line b_var_counter]; lia|reflexivity].
   - (* itoa *)
     mb Ht as vx s1 H1 H2. mr H2.
     destruct (peval sg x) as [[z| | |]|] eqn:Ex; try discriminate. inversion Hv; subst v.
